@@ -1,7 +1,7 @@
 (** C15 — Reader-to-matcher hand-off is exactly-once; header lines are never candidates; the lock
     admits one holder.  Statements only.  Pool and matcher are those of the pipeline transition
     system (Model/Pipeline.v); the lock is Model/SpinLock.v. *)
-From SkimV Require Import Common.Base Gen.PipelineOrder Model.PipelineOrder Model.Pipeline Proof.Pipeline Model.SpinLock Proof.SpinLock.
+From SkimV Require Import Common.Base Gen.PipelineOrder Model.PipelineOrder Model.Pipeline Proof.Pipeline Model.SpinLock Proof.SpinLock Model.Draw Proof.Draw.
 
 (** In every reachable state: the slices handed out by `take` since the last reset/clear are
     contiguous from position 0 up to the taken mark (none skipped, none handed out twice, in
@@ -38,6 +38,24 @@ Proof.
   destruct (header_split nres ncie mp s HI). split; [|split]; auto. apply (arrived_prefix nres ncie mp s HI).
 Qed.
 Print Assumptions c15_header.
+
+(** the header widget shows them above the list: after the --header lines, reserved item k is on
+    row (fixed + k) from the top in the reverse layouts and from the bottom otherwise; what is shown
+    is a prefix of its glyphs, inside columns 2..width-1, with no dots and no highlight *)
+Theorem c15_header_shown : forall cw width height tab reverse fixed reserved out,
+  header_rows cw width height tab reverse fixed reserved = Some out ->
+  List.length out = List.length fixed + List.length reserved /\
+  forall k t, nth_error (fixed ++ reserved) k = Some t ->
+    nth_error out k = Some ((if reverse then k else height - k - 1), header_line cw width tab t) /\ k < height /\
+    exists b, header_line cw width tab t = place cw 2 (firstn b (glyphs cw tab 0 (tagged MNone 0 7%N t))) /\
+              Forall (fun c => 2 <= fst c < 2 + (width - 2)) (header_line cw width tab t).
+Proof.
+  intros cw width height tab reverse fixed reserved out H.
+  destruct (header_rows_spec cw width height tab reverse fixed reserved out H) as [H1 H2].
+  split; [exact H1|]. intros k t Hk. destruct (H2 k t Hk) as [Ha Hb]. split; [exact Ha|]. split; [exact Hb|].
+  apply header_line_prefix.
+Qed.
+Print Assumptions c15_header_shown.
 
 (** the lock: at most one holder under every schedule of any number of threads; a holder reads
     what the previous holder wrote and no completed update is lost (sequentially consistent CAS) *)
